@@ -202,6 +202,11 @@ fn main() {
             j["histories_enumerated"] = enumerated.into();
             j["determinism_rechecks"] = rechecked.into();
             j["violations"] = nviol.into();
+            let mut sites = serde_json::Map::new();
+            for (name, seen, failed) in simalloc::site_counters() {
+                sites.insert(name.to_string(), serde_json::json!({"requests_seen": seen, "failed_by_injection": failed}));
+            }
+            j["fallible_sites"] = serde_json::Value::Object(sites);
             j["soft_hits"] = soft_hits.into();
             j["extra"] = ctx.extra();
             writeln!(lock, "STATS {}", j).unwrap();
